@@ -21,6 +21,7 @@ pub mod c08;
 pub mod c09;
 pub mod c12;
 pub mod c16;
+pub mod c17;
 
 pub fn all() -> Vec<Prop> {
     vec![
@@ -39,5 +40,8 @@ pub fn all() -> Vec<Prop> {
         c08::prop_c14(),
         c12::prop_c15(),
         c16::prop(),
+        c17::prop_c17(),
+        c17::prop_c18(),
+        c17::prop_c19(),
     ]
 }
